@@ -728,6 +728,10 @@ func goCode(root string, unit string) string {
 		header("Model.GoSem", "Model.GoIO")
 		text, errs := translateJtp(parseFile(root, "jtp/jtp.go"), []string{"parseStatusLine", "parseContentType", "parseLocation", "validateHeaders", "findLocation", "Get"})
 		emit("jtp/jtp.go (the response readers and what Get makes of a response)", text, errs)
+	case "jtpfront":
+		header("Model.GoSem", "Model.GoIO", "Model.GoNet", "Generated.GoJtp")
+		text, errs := translateJtpFront(parseFile(root, "jtp/jtp.go"))
+		emit("jtp/jtp.go (Get before the response is read: cache, scheme, dial target, deadline, request)", text, errs)
 	case "view":
 		header("Model.GoSem", "Model.GoSlices", "Model.GoCtl", "Model.Ansi", "Model.Style", "Generated.GoAnsi", "Generated.GoFeed", "Generated.GoHistory")
 		text, errs := translateView(root)
@@ -756,6 +760,25 @@ func goCode(root string, unit string) string {
 		header("Model.GoSem", "Model.GoSlices", "Model.GoCtl", "Model.GoConv", "Model.Mime", "Generated.GoFeed", "Generated.GoHistory")
 		text, errs := translateUpdate(root)
 		emit("ui/ui.go ((*State).Update)", text, errs)
+	case "hook":
+		header("Model.GoSem", "Model.GoSlices", "Model.GoStrings", "Generated.GoMime")
+		text, errs := translateHook(root)
+		emit("ui/ui.go ((*State).openExternally and the goroutine it starts)", text, errs)
+	case "hex":
+		header("Model.GoSem", "Model.GoBytes", "Generated.GoConfig")
+		text, errs := translateHex(parseFile(root, "config/config.go"))
+		emit("config/config.go (hexToAnsi and parse, on bytes)", text, errs)
+	case "present":
+		header("Model.GoSem", "Model.GoSlices", "Model.GoJson", "Model.GoText", "Model.GoItem", "Generated.GoLink", "Generated.GoStyle", "Generated.GoAnsih")
+		text, errs := translatePresent(root, []string{
+			"Post.String", "Post.Preview", "Post.Name", "Post.Timestamp",
+			"Actor.String", "Actor.Preview", "Actor.Name", "Actor.Timestamp",
+			"Activity.String", "Activity.Preview", "Activity.Name", "Activity.Timestamp",
+			"Failure.String", "Failure.Preview", "Failure.Name", "Failure.Timestamp",
+		},
+			[]string{"background", "foreground", "Bold", "Strikethrough", "Underline", "Italic", "Code", "Highlight", "Color", "Red", "Link", "CodeBlock", "QuoteBlock", "LinkBlock", "Header", "Bullet"},
+			[]string{"collapse", "Apply", "Indent", "Pad", "DumbWrap", "Wrap", "lineIsOnlyWhitespace", "Snip"})
+		emit("pub/post.go, pub/actor.go, pub/activity.go, pub/failure.go (String, Preview, Name, Timestamp and what they call), style.Problem, ansi.Scrub", text, errs)
 	default:
 		b.WriteString("-- unknown unit " + unit + "\n")
 	}
